@@ -105,6 +105,9 @@ func funcTags(sp *FuncSpec) []string {
 	for _, cs := range sp.Asserts {
 		add(cs)
 	}
+	for _, cs := range sp.Before {
+		add(cs)
+	}
 	add(sp.Requires)
 	add(sp.Ensures)
 	for _, l := range sp.Loops {
